@@ -269,6 +269,8 @@ pub enum PubHow {
 pub enum ClientOp {
     Send { h: u16, work: Vec<Step> },
     Call { h: u16, work: Vec<Step> },
+    /// start a call, poll it `polls` times, then drop the future (client-side timeout / select!)
+    CallDrop { h: u16, work: Vec<Step>, polls: u8 },
     Ping { h: u16 },
     Stop { h: u16 },
     Halt { h: u16 },
